@@ -14,9 +14,21 @@ Theorem c17_countmin_no_valid_program_is_stuck :
   forall nh nb mx sh, 1 <= nh < 256 -> 3 <= nb < 4294967296 -> nh * nb < zN Gen.GenCountMin.MAX_TABLE_ENTRIES ->
   sh < 65536 -> mx < M64 ->
   forall bucket : N -> N -> N, (forall x r, bucket x r < nb) ->
-  forall p : prog, pok p -> pweight p <= mx ->
-  exists s f, eval nh nb mx sh bucket p = Ok s /\ LB nh nb mx sh bucket s f /\ cm_total s <= pweight p /\ wfc mx sh s.
+  forall p : prog, pok nh nb mx sh p -> pweight mx sh p <= mx -> ~ has_image p ->
+  exists s f, eval nh nb mx sh bucket p = Ok s /\ LB nh nb mx sh bucket s f /\ cm_total s <= pweight mx sh p /\ wfc mx sh s.
 Proof. exact api_no_stuck. Qed.
+
+(* ... and when a program also uses sketches deserialized from ARBITRARY bytes (leaf PImage bs; its weight is
+   the accepted image's total weight, its configuration the program's): still never stuck - either it runs
+   to completion, or an image leaf was rejected with Err *)
+Theorem c17_countmin_no_valid_program_with_images_is_stuck :
+  forall nh nb mx sh, 1 <= nh < 256 -> 3 <= nb < 4294967296 -> nh * nb < zN Gen.GenCountMin.MAX_TABLE_ENTRIES ->
+  sh < 65536 -> mx < M64 ->
+  forall bucket : N -> N -> N, (forall x r, bucket x r < nb) ->
+  forall p : prog, pok nh nb mx sh p -> pweight mx sh p <= mx ->
+  (exists s f, eval nh nb mx sh bucket p = Ok s /\ LB nh nb mx sh bucket s f /\ cm_total s <= pweight mx sh p /\ wfc mx sh s) \/
+  (eval nh nb mx sh bucket p = Err /\ has_image p).
+Proof. exact api_no_stuck_general. Qed.
 
 (* the queries of a valid program's sketch: lower_bound = estimate <= total weight, and the
    (repaired, saturating) upper_bound lies between the estimate and T::MAX, for every error term *)
@@ -24,7 +36,7 @@ Theorem c17_countmin_queries_ordered :
   forall nh nb mx sh, 1 <= nh < 256 -> 3 <= nb < 4294967296 -> nh * nb < zN Gen.GenCountMin.MAX_TABLE_ENTRIES ->
   sh < 65536 -> mx < M64 ->
   forall bucket : N -> N -> N, (forall x r, bucket x r < nb) ->
-  forall p s x err, pok p -> pweight p <= mx -> eval nh nb mx sh bucket p = Ok s ->
+  forall p s x err, pok nh nb mx sh p -> pweight mx sh p <= mx -> eval nh nb mx sh bucket p = Ok s ->
   cm_lower_bound s (bk_of nh bucket x) <= cm_total s /\
   cm_lower_bound s (bk_of nh bucket x) <= cm_upper_bound s (bk_of nh bucket x) err /\
   cm_upper_bound s (bk_of nh bucket x) err <= mx.
@@ -50,7 +62,7 @@ Proof. exact upper_bound_before_fix_refuted. Qed.
 Example c17_countmin_example :
   let bucket := fun x r => (x + r) mod 3 in
   let p := PScale (fun c => c / 3) (PHalve (PRound (PMerge (PUpd (PUpd PNew 1 200) 2 0) (PUpd PNew 4 55)))) in
-  pok p /\ pweight p = 255 /\
+  pok 1 3 255 7 p /\ pweight 255 7 p = 255 /\
   exists s, eval 1 3 255 7 bucket p = Ok s /\ cm_total s = 42 /\ cm_upper_bound s [1] 38 = 80.
 Proof.
   split; [|split; [reflexivity|eexists; split; [vm_compute; reflexivity|split; reflexivity]]].
